@@ -69,6 +69,30 @@ impl<T: Smp> SincInterpolator<T> for Probe {
     }
 }
 
+/// Linear-interpolation probe: a 2-tap "interpolator" that evaluates the straight line through the two samples
+/// around the centre of the window at the instant the polyphase branch `subindex` stands for,
+/// `index + len/2 - 1 + (subindex+1)/nbr`. With the index signal the resampler's output is the evaluation instant.
+pub struct LProbe {
+    len: usize,
+    nbr: usize,
+}
+impl<T: Smp> SincInterpolator<T> for LProbe {
+    fn get_sinc_interpolated(&self, wave: &[T], index: usize, subindex: usize) -> T {
+        assert!((index + self.len) < wave.len(), "lprobe: index");
+        assert!(subindex < self.nbr, "lprobe: subindex");
+        let a = wave[index + self.len / 2 - 1];
+        let b = wave[index + self.len / 2];
+        let w = T::of64((subindex as f64 + 1.0) / self.nbr as f64);
+        a + w * (b - a)
+    }
+    fn len(&self) -> usize {
+        self.len
+    }
+    fn nbr_sincs(&self) -> usize {
+        self.nbr
+    }
+}
+
 pub enum Inst<T: Smp> {
     FastIn(FastFixedIn<T>),
     FastOut(FastFixedOut<T>),
@@ -205,6 +229,7 @@ fn make_interp<T: Smp>(
     let fc = if ratio >= 1.0 { fcut } else { fcut * ratio as f32 };
     Some(match which {
         "probe" => Box::new(Probe { len, nbr: osf }),
+        "lprobe" => Box::new(LProbe { len, nbr: osf }),
         "scalar" => Box::new(ScalarInterpolator::<T>::new(len, osf, fc, win)),
         "avx" => Box::new(AvxInterpolator::<T>::new(len, osf, fc, win).ok()?),
         "sse" => Box::new(SseInterpolator::<T>::new(len, osf, fc, win).ok()?),
